@@ -14,6 +14,7 @@ import astload
 from core import Fn, Target, VC
 import frame
 import functional
+import generators
 
 
 def T(*a, **k):
@@ -501,8 +502,9 @@ def lint_vcs():
 
 
 def build(tier):
+    gen_targets, gen_info = generators.targets(tier)
     targets = (solver_targets() + iterator_targets() + objective_targets() + loss_targets(tier) + tune_targets() + wlearner_targets()
-               + dataset_const_targets() + functional.targets())
+               + dataset_const_targets() + functional.targets() + gen_targets)
     return {
         'targets': targets, 'vcs': [], 'bounded': lint_vcs(),
         'decided': functional.DECIDED + [
